@@ -224,10 +224,17 @@ func init() { Registry["C11"] = C11 }
 // C11: malformed traffic is rejected cleanly and never crashes server or client.
 func C11(c *Ctx, r *report.Run) error {
 	r.Rule = "for every body-carrying echo route of the codec units (one per generated decoder family) and of plain units: (a) every string of length <= L over a 17-symbol JSON token alphabet (L=4 quick, 5 thorough), (b) every byte string of length <= 2 (quick) / 3 (thorough) as binary protobuf, (c) every single mutation (truncation at each byte, each JSON node replaced by 12 hostile values, number<->string, unknown key, duplicate key; protobuf truncations and bit flips) of two valid bodies, sent to the generated Go server; oracle: never panic, never 5xx, 400 carries a decodable ValidationError, a syntactically invalid body is never dispatched, a dispatched request equals the reference decoding (protojson / proto.Unmarshal) or accounts for every member of the body; then every response in status x content-type x body is fed to the generated Go client: no panic, and no success on an undecodable 2xx body; distinct = (unit, rpc, class, outcome)"
+	// core units get the full alphabet enumeration; the extended codec units (every annotation on every cardinality, nested
+	// declarations, variant shapes, ...) get the mutation classes and the short strings only
 	var specs []*spec.Spec
+	mutOnly := map[string]bool{}
 	for _, s := range serviceSpecs(c) {
-		if hasTag(s, "core") {
+		switch {
+		case hasTag(s, "core"):
 			specs = append(specs, s)
+		case hasTag(s, "extended") && hasTag(s, "codec") && hasTag(s, "valid"):
+			specs = append(specs, s)
+			mutOnly[s.Name] = true
 		}
 	}
 	r.Programs = len(specs)
@@ -248,10 +255,12 @@ func C11(c *Ctx, r *report.Run) error {
 		}
 	}
 	// all byte strings of length 3 (16.8M per route) only on two representative routes in the thorough tier
-	var deep, rest []rt.JobUnit
+	var deep, rest, muts []rt.JobUnit
 	for _, u := range split {
 		m := u.Services[0].Methods[0].Name
-		if c.Thorough && (m == "EchoInt64EncodingTest" || m == "Get") {
+		if mutOnly[u.Name] {
+			muts = append(muts, u)
+		} else if c.Thorough && (m == "EchoInt64EncodingTest" || m == "Get") {
 			deep = append(deep, u)
 		} else {
 			rest = append(rest, u)
@@ -262,6 +271,11 @@ func C11(c *Ctx, r *report.Run) error {
 	}
 	if len(deep) > 0 {
 		if err := RunHarness(c, w, r, "c11", deep, map[string]string{"maxB": "3"}, specIndex(w)); err != nil {
+			return err
+		}
+	}
+	if len(muts) > 0 {
+		if err := RunHarness(c, w, r, "c11", muts, map[string]string{"maxL": "2", "maxB": "1"}, specIndex(w)); err != nil {
 			return err
 		}
 	}
